@@ -5,7 +5,9 @@ keystroke schedule) the fault-free execution is run first; it makes N numbered e
 (tcgetattr, tcsetattr, tcdrain, write, select, read, ioctl, monotonic, the caller's more(), and for
 draw() every stdout write / flush / sleep).  Then the same execution is repeated once per
 (k in 1..N) x {exception INSTEAD of call k, exception right AFTER call k} x exception kind.
-Oracle: the tty's struct termios after the operation returned or raised == before, byte for byte.
+Oracle: the tty's struct termios after the operation returned or raised == before, byte for byte; and
+a fixed fault-free follow-up (read_tty_all + a DA1 query) run afterwards in the same process - after
+every execution, including those faulted at the restoring tcsetattr - leaves the attributes as it finds them.
 Excluded by definition: a fault injected instead of a restoring tcsetattr itself (a tcsetattr whose
 argument is the attribute set found on entry, made while the attributes differ, and after which the
 (sub-)operation does no more terminal I/O before the next attribute change or its end).
@@ -153,14 +155,33 @@ def execute(case, chooser, fault=None):
         raise
     except BaseException as e:  # noqa: BLE001 - the injected fault, more() failing, ...
         outcome = type(e).__name__
+    # what the operation itself left behind
+    diff = M.attrs_diff(tty.initial_attrs, tty.attrs)
+    ncalls, npoints = tty.ncalls, (stdout.npoints if stdout is not None else 0)
+    restoring = restoring_calls(tty) if fault is None else None
+    # fixed fault-free follow-up in the same process: whatever happened before (including a fault at the
+    # restoring tcsetattr itself), later operations must again leave the terminal as THEY find it
+    tty.fault = None
+    tty.log_calls = False
+    if plan is not None:
+        plan.fired = True
+    found = copy.deepcopy(tty.attrs)
+    fu_outcome = "return"
+    try:
+        L.utils.read_tty_all()
+        L.utils.query_terminal(b"\x1b[c", lambda buf: not buf.endswith(b"c"))
+    except (world.HarnessError, explore.ReplayDivergence):
+        raise
+    except BaseException as e:  # noqa: BLE001
+        fu_outcome = type(e).__name__
     finally:
         if stdout is not None:
             world.uninstall()
     return dict(
-        outcome=outcome, diff=M.attrs_diff(tty.initial_attrs, tty.attrs), ncalls=tty.ncalls,
-        npoints=stdout.npoints if stdout is not None else 0, fired=st["fired"],
+        outcome=outcome, diff=diff, ncalls=ncalls, npoints=npoints, fired=st["fired"],
+        followup_diff=M.attrs_diff(found, tty.attrs), followup_outcome=fu_outcome,
         changed_at_fault=st["changed_at_fault"], fault_kind=getattr(tty, "fault_kind", None),
-        restoring=restoring_calls(tty) if fault is None else None,
+        restoring=restoring,
         choices=list(chooser.choices), trace=tuple(tty.trace), changed_ever=tty.changed_ever,
         plan_kind=getattr(plan, "fired_kind", None) if plan else None)
 
@@ -199,6 +220,18 @@ def restoring_calls(tty):
 # ---------------------------------------------------------------------------------- oracle
 def judge(col, case, choices, fault, obs, nofault_points=None, restoring=()):
     col.count()
+    if obs["followup_diff"] and (not fault or obs["fired"]):
+        if fault:
+            sig = dict(op=case["op"], clause="attrs-restored", phase="follow-up", fault_dev=fault["dev"],
+                       call=obs["fault_kind"] if fault["dev"] == "tty" else obs["plan_kind"], mode=fault["mode"])
+            when = (f"after {fault['exc']} {fault['mode']} {'environment call' if fault['dev'] == 'tty' else 'stdout point'} "
+                    f"{fault['k']} ({sig['call']}) of {_desc(case)} (which ended with {obs['outcome']})")
+        else:
+            sig = dict(op=case["op"], clause="attrs-restored", phase="follow-up", fault="none")
+            when = f"after a fault-free {_desc(case)} (ended with {obs['outcome']})"
+        col.violation(sig, f"{when}: a later fault-free read_tty_all() + query_terminal(DA1) in the same process left the "
+                      f"attributes changed from what it found: {obs['followup_diff']} (follow-up ended with "
+                      f"{obs['followup_outcome']})", dict(case=case, choices=list(choices), fault=fault))
     if fault:
         if not obs["fired"]:
             # only an 'after' fault attached to a more() call that raises by itself (there is no "after")
